@@ -325,6 +325,7 @@ def main(argv=None):
     digests = set()
     classes = Counter()
     samples = []
+    sample_lists = []
     notes = []
     shard_walls = []
     for r in results:
@@ -337,9 +338,7 @@ def main(argv=None):
         for i in range(0, len(blob), 8):
             digests.add(blob[i:i + 8])
         classes.update(r["classes"])
-        for s in r["samples"]:
-            if len(samples) < MAX_SAMPLES * 2:
-                samples.append(s)
+        sample_lists.append(r["samples"])
         for sig, v in r["violations"].items():
             cur = violations.get(sig)
             if cur is None or (v["size"] < cur["size"] and not cur.get("from_regression")):
@@ -350,6 +349,11 @@ def main(argv=None):
         known_seen.update(r["known_hits"])
         notes.extend(r["notes"])
         shard_walls.append(round(r["wall_s"], 2))
+
+    for rank in range(MAX_SAMPLES):     # interleave so samples come from different shards / generators
+        for lst in sample_lists:
+            if rank < len(lst) and len(samples) < MAX_SAMPLES * 2 and lst[rank] not in samples:
+                samples.append(lst[rank])
 
     # ---- floors (anti-vacuity) ----
     floors = getattr(mod, "FLOORS", {}).get(a.tier, {}) if not a.only else {}
